@@ -186,7 +186,11 @@ func workerMain(args []string) {
 		agg.LastSeed = rs
 		// sample some early runs and a few later ones
 		want := len(agg.Samples) < *samples && (n < int64(*samples)/2 || n%97 == 0)
+		t0 := time.Now()
 		v := oneRun(p, agg, rs, idx, nil, false, want, rl)
+		if d := time.Since(t0).Seconds(); d > agg.SlowestRunS {
+			agg.SlowestRunS, agg.SlowestRun = d, idx
+		}
 		n++
 		if agg.Stalled {
 			break
